@@ -130,7 +130,60 @@ def _cas_outcome_edges(g, site: CasSite):
     return fail, exc, how
 
 
+def _only_fnf(type_node) -> bool:
+    """An except clause / suppress() argument list that catches nothing but FileNotFoundError."""
+    if type_node is None:
+        return False
+    elts = type_node.elts if isinstance(type_node, ast.Tuple) else [type_node]
+    return bool(elts) and all(dotted(e) == "FileNotFoundError" for e in elts)
+
+
+def r06_6(prog: Program, rep):
+    """The files backend answers True only when the effect happened: from the exception edge of each effect of a
+    conditional operation (unlink of the ref file, write of the new value, rewrite of packed-refs) no `return True` is
+    reachable, except through a handler / suppress() that catches nothing but FileNotFoundError (already absent)."""
+    m = prog.module("dulwich/refs.py")
+    n = 0
+    for name in ("set_if_equals", "add_if_new", "remove_if_equals"):
+        f = m.funcs.get(f"DiskRefsContainer.{name}")
+        if f is None:
+            raise AnalysisError(f"DiskRefsContainer.{name} not found")
+        g = cfg_of(prog, f)
+        rets = [i for i, nd in g.nodes.items() if nd.kind == "stmt" and isinstance(nd.ast, ast.Return) and isinstance(nd.ast.value, ast.Constant)
+                and nd.ast.value.value is True]
+        eff = []
+        for i, nd in g.nodes.items():
+            for c in node_calls(nd):
+                d = dotted(c.func) or ""
+                if d in ("os.remove", "os.unlink", "os.rename", "os.replace") or callee_name(c) in ("_remove_packed_ref",) or \
+                        (isinstance(c.func, ast.Attribute) and c.func.attr == "write"):
+                    eff.append((i, c))
+
+        def edge_ok(a, b, l):
+            na, nb = g.nodes[a], g.nodes[b]
+            if l == "catch" and nb.kind == "handler" and _only_fnf(nb.ast.type):
+                return False
+            if na.kind == "with_exit_exc" and l == "next":
+                item = na.ast.items[na.info]
+                ce = item.context_expr
+                if isinstance(ce, ast.Call) and ce.args and all(dotted(a_) == "FileNotFoundError" for a_ in ce.args):
+                    return False
+            return True
+        for i, c in eff:
+            n += 1
+            fail = [b for b, l in g.succ[i] if l in EXC_LABELS]
+            r = reach(g, fail, include_srcs=True, edge_ok=edge_ok) if fail else set()
+            bad = [x for x in rets if x in r]
+            rep.ob("R06.6", m.rel, f.qual, f"a failure of `{norm(c, 50)}` never ends in `return True`", not bad,
+                   "the exception of this effect is swallowed (broad except / suppress) and the operation still answers True: the "
+                   "server and the local client report `ok` for a ref that was not changed", c.lineno)
+    if n < 4:
+        raise AnalysisError(f"expected >= 4 effects in the files backend's conditional operations, found {n}")
+
+
 def run(prog: Program, rep, tier="quick"):
+    rep.rule("R06.6", "files backend: True only when the effect happened - no effect failure is swallowed on a path to `return True` "
+                      "(FileNotFoundError excepted)")
     rep.rule("R06.1", "RESULT-USED: the value of each conditional set_if_equals/remove_if_equals in a push-serving "
                       "function reaches a branch or return")
     rep.rule("R06.2", "from the failure and exception outcome of each CAS every path to the per-ref status emission "
@@ -139,6 +192,8 @@ def run(prog: Program, rep, tier="quick"):
                       "object store whose 'absent' side does not reach the write")
     rep.rule("R06.5", "the files backend's compare-and-swap compares values read under the ref lock (DEF-INSIDE, shared with R08.1): "
                       "a stale compare lets a rejected update through and reports it ok")
+    rep.rule("R06.7", "the expected-old argument of every conditional compare-and-swap in a push-serving function cannot be None "
+                      "(None = unconditional): dict.get without a non-None default, literal None")
     rep.rule("R06.4c", "the all-or-nothing decision variable of the atomic branch accumulates: inside the validation loop it is "
                        "only ever set to True (or or-ed), never overwritten by the last command's verdict")
     rep.rule("R06.4b", "atomic under a racing writer: the per-ref compare-and-swap loop of the atomic branch runs with "
@@ -172,6 +227,38 @@ def run(prog: Program, rep, tier="quick"):
             rep.ob("R06.1", rel, qual, key + _branch_tag(f, s), not dropped,
                    "result of a conditional compare-and-swap is dropped: a rejected update is reported as success",
                    s.call.lineno)
+            # R06.7 the expected-old argument is never possibly None: None means "unconditional" to every backend, so a
+            # compare-and-swap whose expected value can be None silently overwrites a ref created by a rival pusher
+            rd_ = reaching_defs(g)
+            maybe_none = None
+            cn = g.nodes_containing(s.call)
+            if s.old is not None and cn:
+                seen_, work_ = set(), [(cn[0], x.id) for x in ast.walk(s.old) if isinstance(x, ast.Name)]
+                exprs_ = [s.old]
+                while work_:
+                    at, nm = work_.pop()
+                    for d in rd_[at].get(nm, ()):
+                        if (d, nm) in seen_:
+                            continue
+                        seen_.add((d, nm))
+                        dn = g.nodes[d]
+                        if dn.kind == "stmt" and isinstance(dn.ast, (ast.Assign, ast.AnnAssign)) and dn.ast.value is not None:
+                            t_ = dn.ast.targets[0] if isinstance(dn.ast, ast.Assign) else dn.ast.target
+                            if isinstance(t_, ast.Name) and t_.id == nm:
+                                exprs_.append(dn.ast.value)
+                for e_ in exprs_:
+                    if isinstance(e_, ast.Constant) and e_.value is None:
+                        maybe_none = e_
+                    if isinstance(e_, ast.Call) and isinstance(e_.func, ast.Attribute) and e_.func.attr == "get" and len(e_.args) == 1 \
+                            and not any(k.arg == "default" for k in e_.keywords):
+                        maybe_none = e_
+                    if isinstance(e_, ast.Call) and isinstance(e_.func, ast.Attribute) and e_.func.attr == "get" and len(e_.args) == 2 \
+                            and isinstance(e_.args[1], ast.Constant) and e_.args[1].value is None:
+                        maybe_none = e_
+            rep.ob("R06.7", rel, qual, "expected-old of " + key + _branch_tag(f, s) + " cannot be None", maybe_none is None,
+                   (f"the expected value comes from `{norm(maybe_none, 50)}`, which is None for a ref the pusher was never shown: "
+                    f"None means 'unconditional' to the ref backends, so a ref created by a rival in the meantime is overwritten "
+                    f"and both pushers are told ok") if maybe_none is not None else "", s.call.lineno)
             if dropped:
                 continue
             fail, exc, how = _cas_outcome_edges(g, s)
@@ -330,6 +417,7 @@ def run(prog: Program, rep, tier="quick"):
     rep.floor("R06.5", 7)
     rep.floor("R06.1", 6)
     rep.floor("R06.3", 2)
+    r06_6(prog, rep)
     rep.floor("R06.4", 3)
 
 
